@@ -154,6 +154,24 @@ class FnCtx:
         from collections import deque
         m = self.mir
         tracked = self._tracked_bools()
+        # only variables that can carry a guard are followed (others would only multiply states)
+        relevant = {}
+        for L, ds in tracked.items():
+            keep = False
+            for d in ds:
+                de = self._def_expr(d)
+                while de[0] == "un" and de[1] == "Not":
+                    de = de[2]
+                if de[0] == "const":
+                    continue
+                try:
+                    if guard_pred(de, "true", None) or guard_pred(de, "false", None):
+                        keep = True
+                except Exception:
+                    keep = True
+            if keep:
+                relevant[L] = ds
+        tracked = relevant
         defsite = {}
         for L, ds in tracked.items():
             for n, d in enumerate(ds):
@@ -261,6 +279,43 @@ def closure_bodies_in(facts, fc, e):
                         if b is not None and b not in out:
                             out.append(b)
     return out
+
+
+def field_adt(fc, op, field):
+    """ADT (short name) that owns `field` in the place chain an operand derives from (chasing refs,
+    copies, clones and Option payload projections through single-definition temporaries)."""
+    from vplib.flow import is_transparent_call
+    m = fc.mir
+    if op.place is None:
+        return None
+    pl = op.place
+    for _ in range(48):
+        for p in pl.proj:
+            if p[0] == "field" and p[4] == field:
+                return short_ty(p[2])
+        l = pl.local
+        if m.is_arg(l):
+            return None
+        ds = m.whole_defs(l)
+        if len(ds) != 1:
+            return None
+        k, bb, i, obj = ds[0]
+        if k == "t":
+            if is_transparent_call(obj) and obj.args and obj.args[0].place is not None:
+                pl = obj.args[0].place
+                continue
+            return None
+        rv = obj.rv
+        if rv is None:
+            return None
+        if rv.kind in ("ref", "rawptr"):
+            pl = rv.place
+            continue
+        if rv.kind in ("use", "cast") and rv.ops and rv.ops[0].place is not None:
+            pl = rv.ops[0].place
+            continue
+        return None
+    return None
 
 
 def is_ok_unit(e):
